@@ -111,7 +111,10 @@ def run_wire(v, args, what, timeout, tag, variant="plain"):
     if rc == -999:
         v.violation("%s: the harness did not finish within %d s (hang in the real code?)" % (what, timeout), {"cmd": args, "stderr": err[-2000:]}, tag=tag + "_hang")
         return rows, (summ[0] if summ else {"aborted": True})
-    if rc != 0 or not summ: raise vlib.MachineryError("%s: wire failed rc=%s: %s %s" % (what, rc, out[-500:], err[-1500:]))
+    if rc != 0:
+        vlib.harness_failed(v, rc, out, err, what, tag + "_crash")          # a crash of the real code is a VIOLATION, anything else a machinery error
+        return rows, (summ[0] if summ else {"aborted": True})
+    if not summ: raise vlib.MachineryError("%s: wire wrote no summary: %s %s" % (what, out[-500:], err[-1500:]))
     for r in rows:      # a helper process that died (sanitizer report in a C codec, Python traceback): keep what it said
         if any("helper died" in x for x in r.get("violations", [])): r["helper_stderr"] = err[-3000:]
     return rows, summ[0]
